@@ -59,8 +59,12 @@ class CommutePlan(Plan):
         n = _n(tier, 300, 3000, 1500)
         for i in range(n):
             progs.append(gen.prog_commute_random(seed * 1000003 + i, 30).text())
+        m = max(30, n // 5)
+        for i in range(m):
+            progs.append(gen.prog_commute_join(seed * 1000003 + i, 12).text())
         exhaustive = False
-        rule = f"{n} programs x 30 random (new, existing) operation pairs on random targets"
+        rule = (f"{n} programs x 30 random (new, existing) operation pairs on random targets; {m} programs x 12 "
+                "PartialJoin.commute probes (explicit common columns, incl. a calculation creating a common column)")
         if tier in ("thorough", "search"):
             nch = 32
             progs.extend(gen.prog_commute_enum(c, nch).text() for c in range(nch))
@@ -95,8 +99,11 @@ class PredicatePlan(Plan):
     def programs(self, tier, seed):
         n = _n(tier, 400, 4000, 2000)
         progs = [gen.prog_predicates(seed * 1000003 + i, 40).text() for i in range(n)]
+        m = max(20, n // 10)
+        progs += [gen.prog_pred_use(seed * 1000003 + i).text() for i in range(m)]
         exhaustive = False
-        rule = f"{n} programs x 40 random predicates/expressions (depth <= 3, 0-3 operands) x one random row over -4..4"
+        rule = (f"{n} programs x 40 random predicates/expressions (depth <= 3, 0-3 operands) x one random row over -4..4"
+                f"; {m} programs x 8 predicate objects used in a join and inspected again")
         if tier in ("thorough", "search"):
             nch = 32
             progs.extend(gen.prog_pred_enum(c, nch, depth=2, limit=60000).text() for c in range(nch))
@@ -131,6 +138,25 @@ class SqlPlan(Plan):
                 "operations, join with/without predicate, chain), each compiled and run on SQLite under both "
                 "physical scan orders")
         return progs, False, rule
+
+
+class CombinedPlan(Plan):
+    """Programs of several plans in one check (each keeps its share of the budget)."""
+
+    def __init__(self, *parts: Plan):
+        self.parts = parts
+        self.trusted_base = sorted({t for p in parts for t in p.trusted_base})
+        self.assumptions = sorted({t for p in parts for t in p.assumptions})
+        self.nontrivial_rule = " / ".join(dict.fromkeys(p.nontrivial_rule for p in parts))
+
+    def programs(self, tier, seed):
+        progs, rules, exhaustive = [], [], True
+        for p in self.parts:
+            ps, ex, rule = p.programs(tier, seed)
+            progs += ps
+            rules.append(rule)
+            exhaustive = exhaustive and ex
+        return progs, exhaustive and bool(progs), " + ".join(rules)
 
 
 class MultiPlan(Plan):
@@ -188,12 +214,12 @@ PLANS: dict[str, Plan] = {
     "C01": IterationPlan(eager=True),
     "C04": CommutePlan(),
     "C05": MergePlan(),
-    "C06": IterationPlan(eager=True, quick=1200),
+    "C06": CombinedPlan(IterationPlan(eager=True, quick=900, thorough=30000), SqlPlan(quick=300, thorough=6000)),
     "C12": PredicatePlan(with_sql=True),
     "C13": PredicatePlan(),
     "C18": IterationPlan(eager=False, quick=1500),
     "C02": SqlPlan(quick=500),
-    "C08": SqlPlan(quick=400),
+    "C08": CombinedPlan(SqlPlan(quick=330, thorough=10000), IterationPlan(eager=True, quick=250, thorough=6000)),
     "C11": SqlPlan(quick=500),
     "C03": MultiPlan(quick=700),
     "C07": MultiPlan(quick=600),
